@@ -91,6 +91,58 @@ def leaf_type(db, adt_path, leaf):
     return ty
 
 
+def r_shadow(ctx, db, est):
+    """R-SIB: an inherent method named like a method of the crate's `Estimate` / `Merge` traits wins
+    method-call syntax (`x.merge(&y)`), so it must do exactly what the trait impl does — on every
+    abstract state, leaf for leaf — or not exist.  On the pinned tree only the `define_moments!` types
+    have such a pair (`add`), and the trait impl forwards to it."""
+    n = 0
+    for name, trait in (("add", ESTIMATE), ("merge", MERGE), ("estimate", ESTIMATE)):
+        tp, ip = est.m(name, trait), est.m(name, None)
+        if not tp or not ip or tp == ip or tp not in db.fns or ip not in db.fns:
+            continue
+        ft, fi = db.fns[tp], db.fns[ip]
+        if ft["arg_count"] != fi["arg_count"]:
+            continue
+        res = {}
+        for which, fp, f in (("trait", tp, ft), ("inherent", ip, fi)):
+            def setup(m, fp=fp, f=f):
+                c = sym_self(m, est, "self", int_min=0)
+                args = []
+                for i in range(2, f["arg_count"] + 1):
+                    ty = f["locals"][i]["ty"]
+                    if ty.get("k") == "ref" and ty["to"].get("k") == "adt" and ty["to"].get("path") == est.path:
+                        args.append(self_ref(sym_self(m, est, "other", int_min=0), False))
+                    else:
+                        args.append(m.sym_value(ty, "arg%d" % i))
+
+                def thunk():
+                    r_ = call(m, fp, [self_ref(c, True)] + args)
+                    return leaf_map(c.v), (r_ if is_float(r_) else None)
+                return thunk, {}
+            paths, stats = explore(db, setup, Config(release=True), 600)
+            ctx.count_run(Run(fp, paths, stats, "shadow-" + which))
+            out = {}
+            for p in paths:
+                if p.status == "return":
+                    out[pc_show(p.pc) or "unconditional"] = p.ret
+                elif p.status == "inconclusive":
+                    out = None
+                    break
+            res[which] = out
+        key = "inherent-vs-trait:%s" % name
+        n += 1
+        if res["trait"] is None or res["inherent"] is None:
+            ctx.ob("R-SIB", key, ip, fn_site(db, ip), False, "could not evaluate both %s methods" % name, inc=True)
+            continue
+        same = set(res["trait"]) == set(res["inherent"]) and all(res["trait"][k] == res["inherent"][k] for k in res["trait"])
+        ctx.ob("R-SIB", key, ip, fn_site(db, ip), same,
+               "the inherent `%s` and `<%s as %s>::%s` end in the same state on every abstract path" % (name, est.name, trait.split("::")[-1], name) if same else
+               "`x.%s(..)` resolves to the inherent method, which does not do what `<%s as %s>::%s` does: paths/states differ (%d vs %d paths)" % (
+                   name, est.name, trait.split("::")[-1], name, len(res["inherent"]), len(res["trait"])))
+    return n
+
+
 def add_arity(db, est):
     f = db.fns.get(est.add)
     return f["arg_count"] - 1 if f else 0
@@ -109,6 +161,7 @@ def r_count(ctx, db, est, cfgname, expect_merge=True, check_add=True):
         ctx.ob("R-COUNT", "len-leaf", est.path, "-", False,
                "cannot identify the integer state that len() returns", inc=True)
         return None
+    r_shadow(ctx, db, est)
     # (0) capacity: len() is a u64; the stored counter must not be narrower (a count of 2^32 is reached by
     # 32 doubling merges, 2^31 observations by a long stream)
     lt = leaf_type(db, est.path, leaf)
